@@ -180,12 +180,17 @@ def check_imf(mb, a, n0):
     return None
 
 
-def check_binned(mb, a, n0, edges):
-    """edges: increasing list of bin edges inside [mb0, mbN] (aligned or not)"""
+def check_binned(mb, a, n0, edges, ext="zeros"):
+    """edges: increasing list of bin edges inside [mb0, mbN] (aligned or not); inside the range all three ext modes agree"""
     with np.errstate(all="ignore"):
-        imf = PowerLawIMF(mb, a, N0=n0)
+        imf = PowerLawIMF(mb, a, N0=n0, ext=ext)
         bins = mbin(np.array(edges[:-1]), np.array(edges[1:]))
-        N, M, al = imf.binned_eval(bins)
+        try:
+            N, M, al = (np.atleast_1d(x) * np.ones(len(edges) - 1) for x in imf.binned_eval(bins))
+        except ValueError:
+            if ext == "raise" and any(any(lo < b < hi for b in mb[1:-1]) for lo, hi in zip(edges[:-1], edges[1:])):
+                return None      # a straddling bin has no segment: 'raise' mode raises (same root as C11-straddle)
+            return {"clause": "binned evaluation raised for bins inside the mass range", "ext": ext}
         aligned = all(any(abs(e - b) == 0 for e in edges) or not (edges[0] < b < edges[-1]) for b in mb)
         for j, (lo, hi) in enumerate(zip(edges[:-1], edges[1:])):
             strad = any(lo < b < hi for b in mb[1:-1])
@@ -241,10 +246,11 @@ def sweep(ctx):
                        branch=f"nseg={len(a)}")
         aligned = ctx.rng.random() < 0.7
         edges = gen_edges(ctx.rng, mb, aligned)
-        bad = check_binned(mb, a, n0, edges)
-        ctx.sweep_case("binned", (tuple(mb), tuple(a), n0, tuple(edges)), bad is None,
-                       {"failing_input": {"call": "binned", "args": {"m_break": jfl(mb), "a": jfl(a), "N0": jf(n0), "edges": jfl(edges)}}, "observed": bad},
-                       branch="aligned" if aligned or len(mb) <= 2 else "straddling")
+        ext = ctx.rng.choice(["zeros", "zeros", "extrapolate", "raise"])
+        bad = check_binned(mb, a, n0, edges, ext)
+        ctx.sweep_case("binned", (tuple(mb), tuple(a), n0, tuple(edges), ext), bad is None,
+                       {"failing_input": {"call": "binned", "args": {"m_break": jfl(mb), "a": jfl(a), "N0": jf(n0), "edges": jfl(edges), "ext": ext}}, "observed": bad},
+                       branch=("aligned" if aligned or len(mb) <= 2 else "straddling") + "/" + ext)
 
 
 def replay(ctx, fi):
@@ -253,7 +259,7 @@ def replay(ctx, fi):
     if fi["call"] == "imf":
         return check_imf(mb, al, n0)
     if fi["call"] == "binned":
-        return check_binned(mb, al, n0, [unjf(x) for x in a["edges"]])
+        return check_binned(mb, al, n0, [unjf(x) for x in a["edges"]], a.get("ext", "zeros"))
     raise ValueError(fi["call"])
 
 
